@@ -193,6 +193,7 @@ func runC11(t *testing.T, sc C11Scenario, record bool) *detsim.Outcome {
 	base := runPint(t, c11Env(&sc, 1, detsim.SchedConfig{Order: detsim.OrderOldest}), false)
 	if !base.Live {
 		out.AddViolation("liveness", "baseline run (--workers 1) did not finish")
+		out.Poisoned = true
 		return out
 	}
 	digest := fnv.New64a()
@@ -226,6 +227,7 @@ func runC11(t *testing.T, sc C11Scenario, record bool) *detsim.Outcome {
 		}
 		if !r.Live {
 			out.AddViolation("liveness", fmt.Sprintf("--workers %d: pint did not finish (leak: %s)", sc.Workers, r.Leak))
+			out.Poisoned = true
 			return out
 		}
 		if r.Leak != "" {
